@@ -265,7 +265,20 @@ def outcome_same(ra, rb):
 
 @st.composite
 def s_decframe(draw):
-    kind = draw(st.sampled_from(["adsb", "adsb", "adsb", "commb", "short", "any"]))
+    kind = draw(st.sampled_from(["adsb", "adsb", "adsb", "commb", "register", "short", "any"]))
+    if kind == "register":
+        # a valid register content (generator of C12) on a DF20/21 frame whose altitude code is unknown, illegal or ordinary:
+        # the inference predicates then depend on how the selected common module reports "no altitude"
+        from checks import c12
+        c = draw(c12.s_valid())
+        how = draw(st.sampled_from(["zero", "illegal", "keep", "keep"]))
+        if how == "zero":
+            c["ac"] = 0
+        elif how == "illegal":
+            c["ac"] = draw(st.sampled_from([0b0000000000100, 0b1010100000000, 0b0000000000001, 0b1000100000101]))
+        if how != "keep":
+            c["df"] = 20
+        return {"msg": c12.mkmsg(c), "extra": draw(gen.ubits(8))}
     if kind == "adsb":
         tc = draw(st.one_of(st.integers(0, 31), st.sampled_from([4, 9, 11, 18, 19, 20, 28, 29, 31])))
         me = (tc << 51) | draw(gen.bits(51))
